@@ -276,8 +276,23 @@ def diff_oracle(case):
             bl > 148 or bl == 0 or (legacy and m["ver"] == 0))
 
 
+def pdu_sequence_oracle(case):
+    """several PDUs of any classes one after the other: the definitions are module-level objects shared by all
+    instances, nothing may be carried from one PDU to the next"""
+    cl = set()
+    for k, c in enumerate(case["pdus"]):
+        try:
+            r = layout_oracle(c)
+        except Violation as v:
+            raise Violation(v.sig + ":in-sequence", "PDU %d of %d: %s" % (k, len(case["pdus"]), v.msg))
+        cl.update(r[0])
+    return (sorted(cl), True, {"kinds": [c["kind"] for c in case["pdus"]]})
+
+
 SUBS = [
     Sub("pdu_layouts", strategy=pdu_case(), oracle=layout_oracle, examples={"quick": 2500, "thorough": 80000}),
+    Sub("pdu_sequences", strategy=st.fixed_dictionaries({"pdus": st.lists(pdu_case(), min_size=2, max_size=5)}), oracle=pdu_sequence_oracle,
+        examples={"quick": 500, "thorough": 20000}),
     Sub("message_codec_differential", strategy=st.fixed_dictionaries({"m": S.any_msg(), "legacy": st.booleans()}),
         oracle=diff_oracle, examples={"quick": 2500, "thorough": 80000}),
 ]
